@@ -166,10 +166,16 @@ def c10_sig(tr: Trace, c, r):
         if sig.startswith("C10:internal-error:ValueError:dst:sm:") and idx is not None:
             e = tr.ev[idx]
             # header configuration of the active transaction = that of the last PDU handled/emitted
+            # header configuration of the active transaction: that of the last PDU the handler emitted,
+            # else of the last inbound PDU it admitted (refused foreign PDUs say nothing about it)
             last = None
             for x in tr.ev[:idx + 1]:
-                if x.h == e.h and (x.inp or x.pdu):
-                    last = x.inp or x.pdu
+                if x.h == e.h and x.pdu:
+                    last = x.pdu
+            if last is None:
+                for x in tr.ev[:idx + 1]:
+                    if x.h == e.h and x.inp and x.exc is None:
+                        last = x.inp
             if last is not None and e.h in tr.remote:
                 q = pdu_fields(last)
                 base = (4 + int(q["src"].split("/")[1]) + int(q["dst"].split("/")[1])
@@ -226,14 +232,14 @@ PLANS = {
             ("link-fault-free", 400, lambda rng: link_clean(rng, lambda tr, c, r: o.o_C07(tr, c)))],
     "C08": [("source-naks", 1200, lambda rng: source_any(rng, oc(o.o_C08), always_drain=True))],
     "C10": [("malformed", 1200, lambda rng: malformed(rng, c10_sig)),
-            ("dest-arbitrary", 500, lambda rng: dest_any(rng, c10_sig)),
+            ("dest-arbitrary", 500, lambda rng: dest_any(rng, c10_sig, bad_dest=0.1)),
             ("source-any", 500, lambda rng: source_any(rng, c10_sig)),
             ("link-faulty", 300, lambda rng: link_faulty(rng, c10_sig))],
     "C12": [("link-cancel", 900, lambda rng: link_faulty(rng, lambda tr, c, r: o.o_C12(tr, c), kmax=1, cancel=True)),
             ("dest-cancel", 500, lambda rng: dest_any(rng, oc(o.o_C12))),
             ("source-cancel", 500, lambda rng: source_any(rng, oc(o.o_C12)))],
     "C14": [("dest-fault-tables", 900, lambda rng: dest_any(rng, ot(o.o_C14), fault_p=1.0, reconf=0.6,
-                                                            n_tx=rng.choice((1, 2, 3)))),
+                                                            n_tx=rng.choice((1, 2, 3)), bad_dest=0.2)),
             ("source-fault-tables", 700, lambda rng: source_any(rng, ot(o.o_C14), fault_p=1.0, reconf=0.6,
                                                                 n_tx=rng.choice((1, 2, 3)))),
             ("link-fault-tables", 500, lambda rng: link_faulty(
